@@ -10,8 +10,11 @@ D = 'verif_drv__'
 
 def vec_harness(pfx, N, sc):
     isd = sc == 'double'
-    V = 'struct Geometry_VectorT_%s_%d' % (sc, N)
-    big = '1073741823'
+    narrow = sc in ('signed char', 'short')
+    V = 'struct Geometry_VectorT_%s_%d' % (sc.replace(' ', '_'), N)
+    big = {'signed char': '40', 'short': '10000'}.get(sc, '1073741823')
+    nd = {'signed char': '(signed char)nondet_int', 'short': '(short)nondet_int'}.get(sc, 'nondet_' + sc)
+    wide = 'int' if narrow else sc      # decltype(Scalar * Scalar)
     def K(fmt, j=' && '): return j.join(fmt.replace('#', str(k)) for k in range(N))
     EQ = (lambda x, y: 'same_d(%s, %s)' % (x, y)) if isd else (lambda x, y: '(%s) == (%s)' % (x, y))
     C = lambda v, k: '%s.values_.d[%s]' % (v, k)
@@ -31,8 +34,8 @@ static %(sc)s absv(%(sc)s x) { return x < 0 ? -x : x; }
     body += '  { %s r = %s%s_neg(&a);\n  ' % (V, D, pfx) + A(allk(lambda k: EQ(C('r', k), '-' + C('a', k))), 'negation_is_component_wise') + '  }\n'
     body += A(allk(lambda k: EQ(C('a', k), C('a0', k)) + ' && ' + EQ(C('b', k), C('b0', k))), 'operands_of_the_value_operators_are_unchanged')
     H['addsub'] = body
-    lim = '20000'     # |a*b| <= 4e8, sums of up to four products stay below 2^31: no signed overflow is possible in this range
-    body = sym('a', lim) + sym('b', lim) + '  %s s = nondet_%s();%s\n' % (sc, sc, '' if isd else ' __CPROVER_assume(s >= -%s && s <= %s);' % (lim, lim))
+    lim = {'signed char': '127', 'short': '20000'}.get(sc, '20000')     # |a*b| <= 4e8, sums of up to four products stay below 2^31: no signed overflow is possible in this range
+    body = sym('a', lim) + sym('b', lim) + '  %s s = %s();%s\n' % (sc, nd, '' if isd else ' __CPROVER_assume(s >= -%s && s <= %s);' % (lim, lim))
     body += '  { %s r = %s%s_mul(&a, &b);\n  ' % (V, D, pfx) + A(allk(lambda k: EQ(C('r', k), '%s * %s' % (C('a', k), C('b', k)))), 'operator*_vector_is_component_wise') + '  }\n'
     body += '  { %s c = a; %s%s_imul(&c, &b);\n  ' % (V, D, pfx) + A(allk(lambda k: EQ(C('c', k), '%s * %s' % (C('a', k), C('b', k)))), 'operator*=_vector_is_component_wise') + '  }\n'
     body += '  { %s r = %s%s_smul(&a, s); %s l = %s%s_smul_left(&a, s);\n  ' % (V, D, pfx, V, D, pfx) + A(allk(lambda k: EQ(C('r', k), '%s * s' % C('a', k)) + ' && ' + EQ(C('l', k), '%s * s' % C('a', k))), 'scalar_multiplication_from_either_side_is_component_wise') + '  }\n'
@@ -55,14 +58,15 @@ static %(sc)s absv(%(sc)s x) { return x < 0 ? -x : x; }
     # ---- products
     body = sym('a', lim) + sym('b', lim)
     dot = ' + '.join('%s * %s' % (C('a', k), C('b', k)) for k in range(N))
-    body += '  %s d = %s;\n' % (sc, dot)
-    body += A('%s && %s && %s' % (EQ('%s%s_dot(&a, &b)' % (D, pfx), 'd'), EQ('%s%s_dot_free(&a, &b)' % (D, pfx), 'd'), EQ('%s%s_dot_member(&a, &b)' % (D, pfx), 'd')), 'dot_product_is_the_sum_of_component_products')
+    body += '  %s d = %s;\n' % (wide, dot)
+    body += A('%s && %s && %s' % (EQ('%s%s_dot(&a, &b)' % (D, pfx), 'd'), EQ('%s%s_dot_free(&a, &b)' % (D, pfx), '(%s)d' % sc), EQ('%s%s_dot_member(&a, &b)' % (D, pfx), 'd')), 'dot_product_is_the_sum_of_component_products (operator| and member dot in the promoted type, the free dot() converted to its declared Scalar result)')
     body += A(EQ('%s%s_sqrnorm(&a)' % (D, pfx), ' + '.join('%s * %s' % (C('a', k), C('a', k)) for k in range(N))), 'sqrnorm_is_the_sum_of_squares')
     if N == 3:
         cr = ['%s * %s - %s * %s' % (C('a', 1), C('b', 2), C('a', 2), C('b', 1)), '%s * %s - %s * %s' % (C('a', 2), C('b', 0), C('a', 0), C('b', 2)), '%s * %s - %s * %s' % (C('a', 0), C('b', 1), C('a', 1), C('b', 0))]
-        body += '  { %s r = %s%s_cross(&a, &b);\n  ' % (V, D, pfx) + A(allk(lambda k: EQ(C('r', k), cr[k])), 'cross_product_formula') + '  }\n'
+        RV = 'struct Geometry_VectorT_int_3' if narrow else V
+        body += '  { %s r = %s%s_cross(&a, &b);\n  ' % (RV, D, pfx) + A(allk(lambda k: EQ(C('r', k), cr[k])), 'cross_product_formula') + '  }\n'
         if not isd:
-            body += '  { %s r = %s%s_cross_free(&a, &b); %s q = %s%s_cross_member(&a, &b);\n  ' % (V, D, pfx, V, D, pfx) + A(allk(lambda k: EQ(C('r', k), cr[k]) + ' && ' + EQ(C('q', k), cr[k])), 'cross_free_and_member_forms_agree') + '  }\n'
+            body += '  { %s r = %s%s_cross_free(&a, &b); %s q = %s%s_cross_member(&a, &b);\n  ' % (RV, D, pfx, RV, D, pfx) + A(allk(lambda k: EQ(C('r', k), cr[k]) + ' && ' + EQ(C('q', k), cr[k])), 'cross_free_and_member_forms_agree') + '  }\n'
     H['products'] = body
     # ---- reductions
     body = sym('a', big)
@@ -74,7 +78,7 @@ static %(sc)s absv(%(sc)s x) { return x < 0 ? -x : x; }
     body += A('(%s) && (%s)' % (allk(lambda k: 'mna <= absv(%s)' % C('a', k)), K('mna == absv(%s)' % C('a', '#'), ' || ')), 'min_abs_is_the_smallest_absolute_value')
     body += A(EQ('%s%s_l8_norm(&a)' % (D, pfx), 'mxa'), 'l8_norm_is_the_largest_absolute_value')
     H['minmax'] = body
-    body = sym('a', '100000000')
+    body = sym('a', {'signed char': '40', 'short': '10000'}.get(sc, '100000000'))
     body += A(EQ('%s%s_l1_norm(&a)' % (D, pfx), ' + '.join('absv(%s)' % C('a', k) for k in range(N))), 'l1_norm_is_the_sum_of_absolute_values')
     body += A(EQ('%s%s_mean(&a)' % (D, pfx), '(%s) / %d' % (' + '.join(C('a', k) for k in range(N)), N)), 'mean_is_the_sum_of_components_over_the_dimension')
     body += A(EQ('%s%s_mean_abs(&a)' % (D, pfx), '(%s) / %d' % (' + '.join('absv(%s)' % C('a', k) for k in range(N)), N)), 'mean_abs_is_the_sum_of_absolute_values_over_the_dimension')
@@ -90,7 +94,7 @@ static %(sc)s absv(%(sc)s x) { return x < 0 ? -x : x; }
     body += '  { %s c = a; _Bool ch = %s%s_maximized(&c, &b);\n  ' % (V, D, pfx) + A(allk(lambda k: EQ(C('c', k), MAX(k))) + ' && ch == (%s)' % K('!(%s > %s)' % (C('a', '#'), C('b', '#')), ' || '), 'maximized_takes_the_maximum_and_signals_a_component_taken_from_the_argument') + '  }\n'
     H['minimize'] = body
     # ---- construction / access
-    body = sym('a', big) + sym('b', big) + '  %s s = nondet_%s(); unsigned long i = nondet_ulong(); __CPROVER_assume(i < %d);\n' % (sc, sc, N)
+    body = sym('a', big) + sym('b', big) + '  %s s = %s(); unsigned long i = nondet_ulong(); __CPROVER_assume(i < %d);\n' % (sc, nd, N)
     body += '  { %s r = %s%s_vectorized(s); %s q = %s%s_from_scalar(s);\n  ' % (V, D, pfx, V, D, pfx) + A(allk(lambda k: EQ(C('r', k), 's') + ' && ' + EQ(C('q', k), 's')), 'scalar_constructor_and_vectorized_fill_every_component') + '  }\n'
     body += A(EQ('%s%s_at(&a, i)' % (D, pfx), C('a', 'i')), 'operator[]_is_the_component')
     body += '  { %s x = a, y = b; %s%s_swap(&x, &y);\n  ' % (V, D, pfx) + A(allk(lambda k: EQ(C('x', k), C('b', k)) + ' && ' + EQ(C('y', k), C('a', k))), 'swap_exchanges_the_vectors') + '  }\n'
@@ -126,14 +130,15 @@ def obligations():
     GROUP_FUNCS = {'addsub': ['add', 'sub', 'iadd', 'isub', 'neg'], 'muldiv': ['mul', 'imul', 'smul', 'smul_left', 'ismul', 'div', 'idiv', 'sdiv', 'isdiv'], 'compare': ['eq', 'ne', 'lt'],
                    'products': ['dot', 'dot_free', 'dot_member', 'sqrnorm'], 'minmax': ['max', 'min', 'max_abs', 'min_abs', 'l8_norm'], 'norms': ['l1_norm', 'mean', 'mean_abs'],
                    'minimize': ['minimize', 'maximize', 'vmin', 'vmax', 'minimized', 'maximized'], 'construct': ['vectorized', 'from_scalar', 'at', 'swap']}
-    for pfx, N, sc in (('i3', 3, 'int'), ('i2', 2, 'int'), ('i4', 4, 'int'), ('d3', 3, 'double')):
+    for pfx, N, sc in (('i3', 3, 'int'), ('i2', 2, 'int'), ('i4', 4, 'int'), ('d3', 3, 'double'), ('c3', 3, 'signed char'), ('s3', 3, 'short')):
         pre, H = vec_harness(pfx, N, sc)
         for g, body in H.items():
+            if sc in ('signed char', 'short') and g in ('muldiv',): continue      # narrow scalars: the groups whose result type is promoted (products, norms) and the order-based ones
             roots = [Q + pfx + '_' + f for f in GROUP_FUNCS[g]]
-            if g == 'products' and N == 3: roots += [Q + pfx + '_cross'] + ([Q + pfx + '_cross_free', Q + pfx + '_cross_member'] if sc == 'int' else [])
-            obs.append(Ob(id='C19.%s.%s' % (pfx, g), props=['C19'], quick_for=['C19'] if pfx in ('i3', 'd3') else [], tu='vector', cfg='plain', tier='U', roots=roots,
+            if g == 'products' and N == 3: roots += [Q + pfx + '_cross'] + ([Q + pfx + '_cross_free', Q + pfx + '_cross_member'] if sc != 'double' else [])
+            obs.append(Ob(id='C19.%s.%s' % (pfx, g), props=['C19'], quick_for=['C19'] if pfx in ('i3', 'd3') or (pfx == 'c3' and g in ('products', 'norms')) else [], tu='vector', cfg='plain', tier='U', roots=roots,
                           harness=pre + 'void harness(void) {\n' + body + '}\n', unwind=N + 2, adaptive_unwind=False, timeout=900,
-                          flags=((['--div-by-zero-check', '-no:--signed-overflow-check'] + (['--z3'] if g == 'muldiv' else []) if g in ('muldiv', 'products') else ['--div-by-zero-check']) if sc == 'int' else (['--cvc5', '--fpa'] if g in ('addsub', 'muldiv', 'products', 'norms') else [])),
+                          flags=((['--div-by-zero-check', '-no:--signed-overflow-check'] + (['--z3'] if g == 'muldiv' else []) if g in ('muldiv', 'products') else ['--div-by-zero-check']) if sc != 'double' else (['--cvc5', '--fpa'] if g in ('addsub', 'muldiv', 'products', 'norms') else [])),
                           note='VectorT<%s,%d> %s operations against their component-wise definitions, all component values%s' % (sc, N, g, ' within the stated no-overflow range' if sc == 'int' else ' (every bit pattern)')))
     obs.append(Ob(id='C19.convert', props=['C19'], quick_for=['C19'], tu='vector', cfg='plain', tier='U', roots=[Q + f for f in ('i3_make', 'd3_from_i3', 'd3_assign_i3', 'i3_from_d3', 'f3_from_d3', 'i3_from_ptr', 'd4_homogenized')],
                   harness=EXTRA, unwind=6, adaptive_unwind=False, timeout=900, flags=['--z3', '--fpa'], note='conversions between scalar types, component/iterator constructors, homogenized()'))
